@@ -267,6 +267,13 @@ def run(prog: Program, rep: Report, tier: str) -> None:
     rep.rule("R09.3", "alive is only ever cleared; out-of-grid candidates die", 16)
     rep.rule("R09.4", "horizontal positions are written only by Tracker.update (release and warm start aside); no in-place writes through aliases", 3)
     rep.rule("R09.5", "valid region = strict box inside [xmin, xmax] x [ymin, ymax]; atsea = land mask of the particle's own cell", 7)
+    rep.rule("R09.6", "a dead particle cannot reappear in a dense-layout record: the state is compactified only under the sparse layout (shared with C06 R06.6)", 1)
+    from . import c06
+
+    sub = Report(pid="C09")
+    c06.compactify_sites(prog, sub)
+    for o in sub.obligations:
+        rep.add("R09.6", o.func, f"[{o.rule}] {o.construct}", o.verdict == "ok" if o.verdict != "undecided" else None, o.what, o.loc)
     case_analysis(prog, rep)
     writers(prog, rep)
     region_definitions(prog, rep)
